@@ -18,6 +18,20 @@ def main():
     pid = a.prop.upper()
     seed = int(os.environ.get('VERIF_SEED', '0'))
     os.environ.pop('PYIGA_VERIF', None)
+    if a.replay:
+        # a replay file names the seed, tier and the failing input / stream; the check is deterministic in
+        # (seed, tier), so replaying = showing the recorded input and re-running the check with that seed
+        import json
+        try:
+            rep = json.load(open(a.replay))
+            seed = int(rep.get('seed', seed))
+            a.tier = rep.get('tier', a.tier)
+            print('REPLAY %s: key=%s seed=%d tier=%s found_failing_input=%s' % (
+                a.replay, rep.get('key'), seed, a.tier, rep.get('found_failing_input')))
+            print('  what: %s' % str(rep.get('what'))[:2000])
+            print('  recorded input: %s' % json.dumps(rep.get('replay'), default=str)[:4000])
+        except Exception as e:
+            print('cannot read replay file %s: %s' % (a.replay, e))
     ctx = common.Ctx(pid, a.tier, seed)
     ctx.replay_file = a.replay
     try:
